@@ -142,6 +142,27 @@ Definition set_nth_z {X} (l : list X) (k : Z) (x : X) : list X :=
   if k <? 0 then l else
   let n := Z.to_nat k in firstn n l ++ match skipn n l with [] => [] | _ :: t => x :: t end.
 
+(* Iterator::nth / DoubleEndedIterator::nth_back as the default methods run them on these iterators (they are not
+   overridden): k calls of next / next_back whose items are discarded, then one more whose item is the result *)
+Fixpoint times_vecs (back : bool) (n : nat) (o : IterVecs) : res (IterVecs * option IterNth) :=
+  let step := if back then Vecs_next_back c es base bytes else Vecs_next c es base bytes in
+  match n with
+  | O => step o
+  | S n' => let* r := step o in match snd r with None => Val (fst r, None) | Some _ => times_vecs back n' (fst r) end
+  end.
+Fixpoint times_nth (back : bool) (n : nat) (i : IterNth) : res (IterNth * option (Z * Z)) :=
+  let step := if back then Nth_next_back c es al base bytes else Nth_next c es al base bytes in
+  match n with
+  | O => step i
+  | S n' => let* r := step i in match snd r with None => Val (fst r, None) | Some _ => times_nth back n' (fst r) end
+  end.
+(* what -> (backwards?, number of discarded items), for the commands that yield an item *)
+Definition item_cmd (what : Z) : option (bool * nat) :=
+  if what =? 0 then Some (false, O) else if what =? 1 then Some (true, O)
+  else if (10 <=? what) && (what <? 90) then Some (false, Z.to_nat (what - 10))
+  else if (100 <=? what) && (what <? 180) then Some (true, Z.to_nat (what - 100))
+  else None.
+
 Fixpoint mscript (o : IterVecs) (inners : list IterNth) (script : list Z) : list obs :=
   match script with
   | who :: what :: t =>
@@ -149,11 +170,15 @@ Fixpoint mscript (o : IterVecs) (inners : list IterNth) (script : list Z) : list
       if what =? 2 then
         match Vecs_len c es o with Val k => OZ k :: mscript o inners t | Panic w => [OPanic w] | UB w => [OUB w] end
       else
-        match (if what =? 0 then Vecs_next c es base bytes o else Vecs_next_back c es base bytes o) with
-        | Val (o', Some i) => OSome (OZ (zlen inners)) :: mscript o' (inners ++ [i]) t
-        | Val (o', None) => ONone :: mscript o' inners t
-        | Panic w => [OPanic w]
-        | UB w => [OUB w]
+        match item_cmd what with
+        | None => [OInvalid]
+        | Some (back, n) =>
+          match times_vecs back n o with
+          | Val (o', Some i) => OSome (OZ (zlen inners)) :: mscript o' (inners ++ [i]) t
+          | Val (o', None) => ONone :: mscript o' inners t
+          | Panic w => [OPanic w]
+          | UB w => [OUB w]
+          end
         end
     else
       match znth_opt who inners with
@@ -162,11 +187,15 @@ Fixpoint mscript (o : IterVecs) (inners : list IterNth) (script : list Z) : list
         if what =? 2 then
           match Nth_len c es i with Val k => OZ k :: mscript o inners t | Panic w => [OPanic w] | UB w => [OUB w] end
         else
-          match (if what =? 0 then Nth_next c es al base bytes i else Nth_next_back c es al base bytes i) with
-          | Val (i', Some _) => OSome OUnit :: mscript o (set_nth_z inners who i') t
-          | Val (i', None) => ONone :: mscript o (set_nth_z inners who i') t
-          | Panic w => [OPanic w]
-          | UB w => [OUB w]
+          match item_cmd what with
+          | None => [OInvalid]
+          | Some (back, n) =>
+            match times_nth back n i with
+            | Val (i', Some _) => OSome OUnit :: mscript o (set_nth_z inners who i') t
+            | Val (i', None) => ONone :: mscript o (set_nth_z inners who i') t
+            | Panic w => [OPanic w]
+            | UB w => [OUB w]
+            end
           end
       end
   | _ => []
